@@ -24,7 +24,8 @@ ASSUMPTIONS = ["msdparser.parse_msd", "the syntactic gap guard is a superset of 
 MONITORS = ["serialize_loaded", "reload_equal", "second_save_identical"]
 REQUIRED = ["key_only_loaded", "lower_case_key", "duplicate_key", "param_after_notes", "lenient_with_stray",
             "chart_both_notes_and_notes2", "corpus_mutation", "sm_chart_loaded", "ssc_chart_loaded", "sm_backslash_without_other_meta",
-            "ssc_version_not_first", "key_only_multi_value_in_chart", "sm_twin_charts_differing_in_extradata"]
+            "ssc_version_not_first", "key_only_multi_value_in_chart", "sm_twin_charts_differing_in_extradata",
+            "double_slash_across_a_4096_block_boundary_of_a_chart_value"]
 
 
 def anchors():
@@ -217,3 +218,10 @@ def observe(ctx, a, text, strict, case):
     else:
         if any("NOTES" in c and "NOTES2" in c for c in a.charts):
             ctx.feat("chart_both_notes_and_notes2")
+        for c in a.charts:
+            for v in c.values():
+                if v and len(v) > 4096 and any(v[i - 1:i + 1] == "//" for i in range(4096, len(v), 4096)):
+                    ctx.feat("double_slash_across_a_4096_block_boundary_of_a_chart_value")
+    for v in a.values():
+        if v and len(v) > 4096 and any(v[i - 2:i + 2].strip("0y ab\n") for i in range(4096, len(v), 4096)):
+            ctx.feat("meta_token_at_a_4096_block_boundary_of_a_simfile_value")
